@@ -101,7 +101,9 @@ def extras_oracle(pid, tier, seed, workdir, stats):
     """Oracle-only scenarios on the real collections for instantiations outside the line protocol: two sets / maps
     with DIFFERENTLY seeded hashers (all binary set operations, operator and assigning forms, predicates, ==, extend,
     clone_from against BTreeSet / BTreeMap mathematics), and zero-sized maps / sets (HashMap<(),()>, HashSet<()>,
-    HashMap<(),u64>) over many capacities. No model comparison: a failing scenario is reported as it is."""
+    HashMap<(),u64>) over many capacities; and the trait impls the protocol never calls: Default of every iterator type and of
+    the collections, From<[_; N]>, FromIterator, Extend by reference, IntoIterator for references. No model comparison: a failing
+    scenario is reported as it is."""
     n = 20000 if tier == "thorough" else 600
     if tier != "thorough" and stats.get("changed"):
         n *= 3
@@ -460,7 +462,7 @@ PROPS = {
     "C08": dict(
         module="Hb.Props.C08",
         ties=[("scen", "reserve", 300, 10000), ("scen", "mixed", 200, 6000), ("scen", "saturate", 60, 2000),
-              ("scen", "table", 150, 5000), ("scen", "set", 120, 4000), ("t1", {})],
+              ("scen", "table", 150, 5000), ("scen", "set", 120, 4000), ("t1", {}), ("custom", extras_oracle)],
         backends=["sse2", "portable"],
         design="§7 C08",
         text="Lean theorems over every table state satisfying the API invariant (any tombstone pattern), every hasher and "
@@ -589,7 +591,7 @@ PROPS = {
         module="Hb.Props.C09",
         more_modules=["Hb.Props.C09Wrappers"],
         ties=[("scen", "iter", 300, 10000), ("scen", "mixed", 200, 6000), ("scen", "saturate", 40, 2000),
-              ("scen", "table", 150, 5000), ("scen", "set", 100, 3000)],
+              ("scen", "table", 150, 5000), ("scen", "set", 100, 3000), ("custom", extras_oracle)],
         backends=["sse2", "portable"],
         design="§7 C09",
         text="Lean theorems: in every table state satisfying the structural invariant (proved preserved elsewhere; "
